@@ -101,6 +101,10 @@ QUICK = [
     sk("ap", [act([], [[PX, True, N(A), False]], par=True), act([], [[A, False, None, False]])], [["all", ["or", PY, A]]]),
     # 11: toggling knowledge: an effect that destroys a known literal conditionally
     sk("abc", [act([], [[A, False, B_, False], [C_, True, A, False]]), act([], [[B_, True, N(C_), False], [A, True, None, False]])], [C_, A]),
+    # 12: relevance through the complement rule and then transitivity: (when not a: b := false) gives a -> b only by complement, (when b: c := true) continues it to a -> c
+    sk("abc", [act([], [[B_, False, N(A), False]]), act([], [[C_, True, B_, False]])], [C_]),
+    # 13: the same chain behind a precondition
+    sk("abc", [act([], [[B_, False, N(A), False], [A, True, C_, False]]), act([N(C_)], [[C_, True, B_, False]])], [C_]),
 ]
 
 # contingent constraint pools: ("oneof"|"or"|"unknown", literals)
